@@ -417,6 +417,13 @@ impl HttpServer {
                 let fd = e.fd();
                 let client_connection = self.connections.get_mut(&fd).unwrap();
 
+                // A connection that is already closed is only kept until the responses to
+                // the requests it yielded have been absorbed; there is nothing to read or
+                // write on it any more.
+                if client_connection.state == ClientConnectionState::Closed {
+                    continue;
+                }
+
                 // If we receive a hang up on a connection, we clear the write buffer and set
                 // the connection state to closed to mark it ready for removal from the
                 // connections map, which will gracefully close the socket.
